@@ -7,6 +7,8 @@ import Heathcliff.Proofs.GenScalingSpec
 import Heathcliff.Proofs.GenPolySpec
 import Heathcliff.Proofs.GenEvalCt
 import Heathcliff.Proofs.GenEvalCt3
+import Heathcliff.Proofs.C02PH
+import Heathcliff.Proofs.C02PW
 
 /- Property theorems only (statements verbatim; proofs are the helper lemmas of Heathcliff/Proofs). -/
 namespace HC.C02
@@ -498,5 +500,52 @@ example : HC.GenC.ct_translate_inplace_eq (List.replicate 12 1) 3 1 (List.replic
       (HC.ctTranslate HC.c02v_exLevel (HC.unflattenCt HC.c02v_exLevel 3 (List.replicate 12 1) true 1)
         (HC.unflattenCt HC.c02v_exLevel 2 (List.replicate 8 2) true 1) false) :=
   HC.gt_translate_inplace_eq_general HC.c02v_exLevel _ _ 3 2 true 1 false _ (Or.inr (by decide)) (by decide) (by decide) (by decide) (by decide) (by decide)
+
+/-! ### THE PROGRAM-LEVEL HOMOMORPHISM THEOREM (BGV), by induction over programs of model operations
+    (program syntax / evaluation / a-priori bookkeeping: Model/Program.lean; proofs: Proofs/C02P.lean, C02PL.lean, C02PH.lean; witness: C02PW.lean) -/
+
+/-- HOM (BGV, ring operations).  For EVERY level the constructors build (`c02p_LevelOK`: tables, CRT base, decryption constants; any degree
+    N = 2^k, any chain, any plain modulus), every secret key of length N, EVERY program over negate / add / sub (all size pairs, balancing of
+    unequal correction factors included) / multiply, square (all size pairs) / multiply_plain, and every assignment of inputs:
+    * each ciphertext input read by the program is canonical, NTT form, has the unit correction factor `(inB i).1`, and its exact phase is
+      congruent modulo Q to some `v_i` with `v_i ≡ cf_i·M_i (mod t)`, `‖v_i‖∞ ≤ (inB i).2` (`c02p_Enc`; fresh: `v = m + t·e`, `c02p_enc_of_fresh`),
+    * each plaintext input read is canonical (NTT form) with integer coefficient-form reading `PL k`, `‖PL k‖∞ ≤ plB k`,
+    * the MODEL DOES NOT REFUSE the program (`eval = .ok r`; refusals propagate),
+    * the decidable a-priori bound `BProg.noiseUB` (‖a ⋆ b‖ ≤ N‖a‖‖b‖, ‖e1·a ± e2·b‖ ≤ e1‖a‖ + e2‖b‖) returns `(f, V)` with `2·V < Q`;
+    then `bgvDecrypt (eval prog)` succeeds and equals the shadow program evaluated in ℤ[X]/(X^N+1), read modulo t. -/
+theorem hom_program_bgv {l : Level} (h : c02p_LevelOK l) {sk : Array Int} (hsk : sk.size = l.n) (cts : Nat → Ct) (pls : Nat → RnsPoly)
+    (M PL : Nat → Nat → Int) (inB : Nat → Nat × Nat) (plB : Nat → Nat) (prog : BProg) {r : Ct}
+    (hin : ∀ i ∈ prog.ctInputs, c02p_Enc l sk (cts i) (M i) (inB i).2 ∧ (cts i).cf = (inB i).1)
+    (hpl : ∀ k ∈ prog.plInputs, RnsCanon l (pls k) ∧ c02p_PlainLift l (pls k) (PL k) ∧ ∀ j, j < l.n → (PL k j).natAbs ≤ plB k)
+    (hev : prog.eval l cts pls = .ok r) {f V : Nat} (hub : prog.noiseUB l.t l.n inB plB = some (f, V))
+    (hV : 2 * V < l.tool.baseQ.prod) :
+    bgvDecrypt l sk r = .ok (Spec.trim (Array.ofFn (n := l.n) fun j => Spec.imod (prog.shadow l.n M PL j.val) l.t.value)) :=
+  HC.hom_program_bgv h hsk cts pls M PL inB plB prog hin hpl hev hub hV
+
+/-- the induction behind HOM: wherever the model succeeds the bookkeeping succeeds, returns the RESULT's correction factor, and the result
+    encrypts the shadow value with phase norm at most the returned bound (so results can be fed to further programs) -/
+theorem hom_program_bgv_noiseUB : type_of% @HC.hom_program_bgv_noiseUB := @HC.hom_program_bgv_noiseUB
+
+/-- per operation, on EXACT phases (`Spec.phase`, what `bgvDecrypt_eq_spec` decodes), modulo Q, coefficient-wise; each also re-establishes
+    the invariant (canonical, NTT form, unit correction factor) for its result -/
+theorem ctNegate_exact_phase : type_of% @HC.c02p_negate_ph := @HC.c02p_negate_ph
+/-- add / sub, ANY two sizes, equal factors (e1 = e2 = 1) or balanced: ph(r) ≡ e1·ph(a) ± e2·ph(b), e1·cf_a ≡ e2·cf_b ≡ cf_r (mod t) -/
+theorem ctTranslateBalanced_exact_phase : type_of% @HC.c02p_translate_ph := @HC.c02p_translate_ph
+/-- multiply / square, ANY two sizes: ph(r) ≡ ph(a) ⋆ ph(b) (negacyclic), cf_r = cf_a·cf_b mod t -/
+theorem bgvMultiply_exact_phase : type_of% @HC.c02p_mul_ph := @HC.c02p_mul_ph
+/-- multiply_plain (NTT-form plaintext with integer reading P): ph(r) ≡ ph(a) ⋆ P -/
+theorem ctMultiplyPlainNtt_exact_phase : type_of% @HC.c02p_mulPlain_ph := @HC.c02p_mulPlain_ph
+
+/-- decryption of any ciphertext satisfying the invariant with `2·V < Q` is its message modulo t -/
+theorem bgvDecrypt_of_enc : type_of% @HC.c02p_decrypt_of_enc := @HC.c02p_decrypt_of_enc
+/-- the input hypothesis from the usual description of a ciphertext: exact phase `cf·m + t·e`, `‖m‖ ≤ Bm`, `‖e‖ ≤ Be` -/
+theorem enc_of_fresh : type_of% @HC.c02p_enc_of_fresh := @HC.c02p_enc_of_fresh
+/-- the level bundle is what the constructors establish -/
+theorem levelOK_of_built : type_of% @HC.c02p_levelOK_of_built := @HC.c02p_levelOK_of_built
+
+/-- NON-VACUITY (N = 4, q = {97, 113}, t = 17, constructor-built level, two fresh ciphertexts, depth-2 program (x0 + x1)·(−x0) − x1 with a
+    2×2 product and a mixed-size 3 − 2 subtraction): every hypothesis of HOM is discharged and the conclusion evaluates to (8, 10, 16, 3) -/
+theorem hom_program_bgv_example : type_of% @HC.hom_program_bgv_example := @HC.hom_program_bgv_example
+theorem hom_program_bgv_example_val : type_of% @HC.hom_program_bgv_example_val := @HC.hom_program_bgv_example_val
 
 end HC.C02
